@@ -2,9 +2,22 @@
 import numpy as np
 
 
+_NAMES = ("_v", "_pval", "_same", "_symbolize")
+
+
+def _unpatch():
+    """undo _patch (the symtf side of the conformance run shares its process with symbolic jobs)"""
+    from props import C17
+
+    for n, f in getattr(C17, "_orig_for_real", {}).items():
+        setattr(C17, n, f)
+
+
 def _patch():
     from props import C17
 
+    if not hasattr(C17, "_orig_for_real"):
+        C17._orig_for_real = {n: getattr(C17, n) for n in _NAMES}
     C17._v = lambda name: {"tmp_a": 0.37, "tmp_b": -0.81, "tmp_c": 1.93}.get(name, 0.5)
     C17._pval = lambda v: float(v.numpy())
     C17._same = lambda a, b: (a == b) if not isinstance(a, float) else abs(a - b) <= 1e-12 * (1 + abs(a))
@@ -16,14 +29,17 @@ def conformance(tier):
     import tensorflow as tf
 
     C17 = _patch()
-    if str(tf.__version__).endswith("symtf"):
-        tf.STATE.symbolic_random = False
-    before, after, d0, d1, inside = C17.scenario_block("amp.temp_params", None)
-    out = {"dens": d0, "same": [float(x) for x in d1]}
-    b, a, d0, d1, K = C17.scenario_comp("partial_weight", None)
-    out["K"] = K
-    out["dens2"] = d0
-    return out
+    try:
+        if str(tf.__version__).endswith("symtf"):
+            tf.STATE.symbolic_random = False
+        before, after, d0, d1, inside = C17.scenario_block("amp.temp_params", None)
+        out = {"dens": d0, "same": [float(x) for x in d1]}
+        b, a, d0, d1, K = C17.scenario_comp("partial_weight", None)
+        out["K"] = K
+        out["dens2"] = d0
+        return out
+    finally:
+        _unpatch()
 
 
 def replay(p):
@@ -37,7 +53,7 @@ def replay(p):
             elif what.startswith("restore."):
                 before, after, d0, d1, _ = C17.scenario_block(p["block"], p["fault"])
             else:
-                before, after, d0, d1, _ = C17.scenario_comp(p["comp"], p.get("k"))
+                before, after, d0, d1, _ = C17.scenario_comp(p["comp"], p.get("k"), p.get("pre"))
             bad = C17._diff(before, after)
             if any(not C17._same(x, y) for x, y in zip(d0, d1)):
                 bad.append("density")
